@@ -276,7 +276,8 @@ Qed.
 Lemma zlen_zrepeat n : 0 <= n -> zlen (zrepeat n) = n.
 Proof. intros H. unfold zlen, zrepeat, lenN. rewrite repeat_length. lia. Qed.
 
-(* String.ReadFrom: length, `l < 0` check, make([]byte, l), io.ReadFull, n += int64(l) *)
+(* String.ReadFrom: length, `l < 0` check, readBytes(r, int(l)) (exactly l bytes, read in bounded steps),
+   n += int64(l) *)
 Lemma tie_String_read s : all_bytes s ->
   fmapr inj_bytes (run_flat (packet_String_ReadFrom_io varint_rd) s) = run_flat r_string s.
 Proof.
@@ -284,21 +285,19 @@ Proof.
   rewrite run_flat_bind by apply robust_varint_rd. rewrite run_flat_bind by apply read32_robust.
   rewrite run_varint_rd. destruct (run_flat read32 s) as [[l n] rest| | |] eqn:E; try reflexivity.
   destruct (read32_facts s l n rest Hs E) as (Rl & Rn & Hr).
-  cbv beta iota. destruct (Z.ltb_spec l 0) as [Neg|Pos].
+  cbv beta iota. change (2 ^ 31) with 2147483648 in Rl. destruct (Z.ltb_spec l 0) as [Neg|Pos].
   - reflexivity.
-  - destruct (Z.ltb_spec l 0) as [?|_]; [lia|].
-    rewrite zlen_zrepeat by exact Pos. cbn [run_flat].
+  - rewrite (wrap_s_id 64 l) by (change (2 ^ (64 - 1)) with 9223372036854775808; lia).
+    destruct (Z.ltb_spec l 0) as [?|_]; [lia|]. cbn [run_flat].
     destruct (N.leb_spec (Z.to_N l) (lenN rest)) as [L|L]; [|reflexivity].
     unfold io_ret. cbn [N.eqb run_flat fmapr]. unfold inj_bytes. cbn [fst snd].
     rewrite map_byte_in by (apply all_bytes_takeN, Hr). rewrite map_to_N_of_N.
-    change (2 ^ 31) with 2147483648 in Rl.
     rewrite (wrap_s_id 64 (0 + Z.of_N n)) by (change (2 ^ (64 - 1)) with 9223372036854775808; lia).
-    rewrite (wrap_s_id 64 l) by (change (2 ^ (64 - 1)) with 9223372036854775808; lia).
     rewrite wrap_s_id by (change (2 ^ (64 - 1)) with 9223372036854775808; lia).
     do 2 f_equal. lia.
 Qed.
 
-(* ByteArray.ReadFrom: length, `Len < 0` check, `cap of the destination < int(Len)` -> make, else reslice to [:Len]
+(* ByteArray.ReadFrom: length, `Len < 0` check, `cap of the destination < int(Len)` -> readBytes into a new slice, else reslice to [:Len] and io.ReadFull
    (never out of range there), io.ReadFull into the whole of it.  The destination is any slice state. *)
 Lemma zlen_app {A} (a b : list A) : zlen (a ++ b) = zlen a + zlen b.
 Proof. unfold zlen. rewrite lenN_app. lia. Qed.
@@ -326,10 +325,12 @@ Proof.
     rewrite wrap_s_id by (change (2 ^ (64 - 1)) with 9223372036854775808; lia).
     do 2 f_equal. lia. }
   destruct (Z.ltb_spec (Z.of_N (lenN bs0 + lenN sp0)) l) as [Small|Big].
-  - destruct (Z.ltb_spec l 0) as [?|_]; [lia|].
-    rewrite zlen_zrepeat by exact Pos. cbn [run_flat].
+  - destruct (Z.ltb_spec l 0) as [?|_]; [lia|]. cbn [run_flat].
     destruct (N.leb_spec (Z.to_N l) (lenN rest)) as [L|L]; [|reflexivity].
-    unfold io_ret. cbn [N.eqb run_flat]. apply Fin.
+    unfold io_ret. cbn [N.eqb run_flat].
+    assert (Zl : zlen (map byte_in (takeN (Z.to_N l) rest)) = l).
+    { rewrite zlen_map, lenN_takeN by exact L. lia. }
+    rewrite Zl. apply Fin.
   - rewrite zlen_app, !zlen_map.
     destruct (Z.ltb_spec l 0) as [?|_]; [lia|]. destruct (Z.ltb_spec (Z.of_N (lenN bs0) + Z.of_N (lenN sp0)) l) as [?|_]; [lia|].
     cbn [orb]. rewrite zlen_ztake by (rewrite zlen_app, !zlen_map; lia). cbn [run_flat].
@@ -363,56 +364,95 @@ Lemma run_bind_r_long {B} (f : fval * N -> dec B) s :
 Proof. unfold r_long, r_fixed. cbn [bind run_flat]. reflexivity. Qed.
 
 Section BitLoop.
-Variable L : nat -> Z -> list Z -> Z -> dec (list Z * Z).
-Hypothesis L0 : forall i b n, L 0 i b n = Ret (b, n).
-Hypothesis LS : forall k i b n, L (S k) i b n =
-  bind packet_Long_ReadFrom_io (fun p => let '(v, n2) := p in L k (wrap_s 64 (i + 1)) (zupd b i v) (wrap_s 64 (n + n2))).
+(* the loop of BitSet.ReadFrom as generated (two copies, one per allocation branch), through its unfolding
+   equations: at index i, `if i == len(b) { grow by more = min(Len-i, i) zero words }`, then read word i *)
+Variable Len : Z.
+Variable L : nat -> Z -> list Z -> list Z -> Z -> dec (list Z * list Z * Z).
+Hypothesis L0 : forall i b sp n, L 0 i b sp n = Ret (b, sp, n).
+Hypothesis LS : forall k i b sp n, L (S k) i b sp n =
+  if (i =? zlen b)
+  then (let more := Z.min (wrap_s 64 (wrap_s 64 Len - i)) i in
+        if (more <? 0) then Crash crash_make else
+        bind packet_Long_ReadFrom_io (fun p => let '(v, n2) := p in
+          L k (wrap_s 64 (i + 1)) (zupd (b ++ zrepeat more) i v) (zdrop more sp) (wrap_s 64 (n + n2))))
+  else bind packet_Long_ReadFrom_io (fun p => let '(v, n2) := p in
+          L k (wrap_s 64 (i + 1)) (zupd b i v) sp (wrap_s 64 (n + n2))).
 
-Lemma bitloop_tie olds : forall k i b n s fuel, all_bytes s -> length b = (i + k)%nat -> (k <= fuel)%nat ->
-  0 <= n -> n + 8 * Z.of_nat k < 2 ^ 62 -> Z.of_nat (i + k) < 2 ^ 62 ->
-  match run_flat (L k (Z.of_nat i) b n) s,
-        run_flat (r_elems fuel (fun _ => r_long) olds (N.of_nat i) (N.of_nat (i + k))) s with
-  | FOk (b', n') r1, FOk (vs, m) r2 =>
-      r1 = r2 /\ all_bytes r1 /\ length b' = length b /\ firstn i b' = firstn i b
-      /\ map VZ (skipn i b') = vs /\ n' = n + Z.of_N m
+Definition bit_rel (i : nat) (b : list Z) (n : Z) (r1 : fres (list Z * list Z * Z)) (r2 : fres (list fval * N)) (total : nat) : Prop :=
+  match r1, r2 with
+  | FOk (b', _, n') q1, FOk (vs, m) q2 =>
+      q1 = q2 /\ length b' = total /\ firstn i b' = firstn i b /\ map VZ (skipn i b') = vs /\ n' = n + Z.of_N m
   | FErr e1, FErr e2 => e1 = e2
   | _, _ => False
   end.
+
+Lemma zlen_nat {A} (l : list A) : zlen l = Z.of_nat (length l).
+Proof. unfold zlen, lenN. lia. Qed.
+
+Lemma bitloop_tie olds : forall k i b sp n s fuel, all_bytes s -> Z.of_nat (i + k) = Len ->
+  (i <= length b <= i + k)%nat -> (length b = i -> k = 0%nat \/ (0 < i)%nat) -> (k <= fuel)%nat ->
+  0 <= n -> n + 8 * Z.of_nat k < 2 ^ 62 -> Len < 2 ^ 62 ->
+  bit_rel i b n (run_flat (L k (Z.of_nat i) b sp n) s)
+          (run_flat (r_elems fuel (fun _ => r_long) olds (N.of_nat i) (N.of_nat (i + k))) s) (i + k).
 Proof.
-  induction k as [|k IH]; intros i b n s fuel Hs Hb Hf Hn Hn2 Hi;
+  induction k as [|k IH]; intros i b sp n s fuel Hs HL Hb Hz Hf Hn Hn2 Hi;
     change (2 ^ 62) with 4611686018427387904 in *.
-  - rewrite L0. rewrite Nat.add_0_r. destruct fuel; cbn [r_elems]; rewrite N.leb_refl; cbn [run_flat].
+  - rewrite L0. rewrite Nat.add_0_r in *. destruct fuel; cbn [r_elems]; rewrite N.leb_refl; cbn [run_flat bit_rel].
     all: repeat split; auto; try lia; rewrite skipn_all2 by lia; reflexivity.
-  - destruct fuel as [|fuel]; [lia|]. rewrite LS. rewrite run_flat_bind by apply robust_Long_io.
-    rewrite run_Long_io by exact Hs. cbn [r_elems].
-    destruct (N.leb_spec (N.of_nat (i + S k)) (N.of_nat i)) as [?|_]; [lia|].
-    rewrite run_bind_r_long.
-    destruct (N.leb_spec 8 (lenN s)) as [L8|L8]; [|exact eq_refl].
-    pose proof (unbe_take_lt 8 s Hs L8) as B. rewrite wrap_s_sx64 by exact B.
-    set (v := sx64 (unbe (takeN 8 s))).
-    rewrite run_flat_bind by (apply r_elems_robust; intros; apply r_fixed_robust).
-    rewrite (wrap_s_id 64 (Z.of_nat i + 1)) by (change (2 ^ (64 - 1)) with 9223372036854775808; lia).
-    rewrite (wrap_s_id 64 (n + 8)) by (change (2 ^ (64 - 1)) with 9223372036854775808; lia).
-    replace (Z.of_nat i + 1) with (Z.of_nat (S i)) by lia.
-    replace (N.of_nat i + 1)%N with (N.of_nat (S i)) by lia.
-    replace (i + S k)%nat with (S i + k)%nat by lia.
-    specialize (IH (S i) (zupd b (Z.of_nat i) v) (n + 8) (dropN 8 s) fuel (all_bytes_dropN 8 s Hs)).
-    unfold zupd in IH. rewrite Nat2Z.id in IH. rewrite upd_nth_length in IH.
-    specialize (IH ltac:(lia) ltac:(lia) ltac:(lia) ltac:(lia) ltac:(lia)).
-    unfold zupd. rewrite Nat2Z.id.
-    destruct (run_flat (L k (Z.of_nat (S i)) (upd_nth b i v) (n + 8)) (dropN 8 s)) as [[b' n'] r1| | |];
-    destruct (run_flat (r_elems fuel (fun _ => r_long) olds (N.of_nat (S i)) (N.of_nat (S i + k))) (dropN 8 s)) as [[vs m] r2| | |];
-      try contradiction; try exact IH.
-    destruct IH as (-> & Hr & Hlen & Hfirst & Hvs & ->). cbn [run_flat].
-    assert (Hi' : (i < length b)%nat) by lia.
-    assert (Hnth : nth i b' 0 = v).
-    { rewrite (firstn_S_nth b' i) in Hfirst by lia. rewrite (firstn_S_nth (upd_nth b i v) i) in Hfirst by (rewrite upd_nth_length; lia).
-      apply app_inj_tail in Hfirst. destruct Hfirst as [_ E]. rewrite E. apply upd_nth_nth. exact Hi'. }
-    repeat split; auto.
-    + rewrite (firstn_S_nth b' i) in Hfirst by lia. rewrite (firstn_S_nth (upd_nth b i v) i) in Hfirst by (rewrite upd_nth_length; lia).
-      apply app_inj_tail in Hfirst. destruct Hfirst as [E _]. rewrite E. apply upd_nth_firstn.
-    + rewrite (skipn_nth_cons' b' i) by lia. cbn [map]. rewrite Hnth, Hvs. reflexivity.
-    + lia.
+  - destruct fuel as [|fuel]; [lia|].
+    (* the common part: word i is read into a slice b2 that has a slot i *)
+    assert (Step : forall b2 sp2, (i < length b2 <= i + S k)%nat ->
+      bit_rel i b2 n
+        (run_flat (bind packet_Long_ReadFrom_io (fun p => let '(v, n2) := p in
+           L k (wrap_s 64 (Z.of_nat i + 1)) (zupd b2 (Z.of_nat i) v) sp2 (wrap_s 64 (n + n2)))) s)
+        (run_flat (r_elems (S fuel) (fun _ => r_long) olds (N.of_nat i) (N.of_nat (i + S k))) s) (i + S k)).
+    { intros b2 sp2 Hb2. rewrite run_flat_bind by apply robust_Long_io.
+      rewrite run_Long_io by exact Hs. cbn [r_elems].
+      destruct (N.leb_spec (N.of_nat (i + S k)) (N.of_nat i)) as [?|_]; [lia|].
+      rewrite run_bind_r_long.
+      destruct (N.leb_spec 8 (lenN s)) as [L8|L8]; [|exact eq_refl].
+      pose proof (unbe_take_lt 8 s Hs L8) as B. rewrite wrap_s_sx64 by exact B.
+      set (v := sx64 (unbe (takeN 8 s))).
+      rewrite run_flat_bind by (apply r_elems_robust; intros; apply r_fixed_robust).
+      rewrite (wrap_s_id 64 (Z.of_nat i + 1)) by (change (2 ^ (64 - 1)) with 9223372036854775808; lia).
+      rewrite (wrap_s_id 64 (n + 8)) by (change (2 ^ (64 - 1)) with 9223372036854775808; lia).
+      replace (Z.of_nat i + 1) with (Z.of_nat (S i)) by lia.
+      replace (N.of_nat i + 1)%N with (N.of_nat (S i)) by lia.
+      replace (i + S k)%nat with (S i + k)%nat by lia.
+      specialize (IH (S i) (zupd b2 (Z.of_nat i) v) sp2 (n + 8) (dropN 8 s) fuel (all_bytes_dropN 8 s Hs)).
+      unfold zupd in IH. rewrite Nat2Z.id in IH. rewrite upd_nth_length in IH.
+      specialize (IH ltac:(lia) ltac:(lia) ltac:(lia) ltac:(lia) ltac:(lia) ltac:(lia) ltac:(lia)).
+      unfold zupd. rewrite Nat2Z.id. unfold bit_rel in *.
+      destruct (run_flat (L k (Z.of_nat (S i)) (upd_nth b2 i v) sp2 (n + 8)) (dropN 8 s)) as [[[b' sp'] n'] r1| | |];
+      destruct (run_flat (r_elems fuel (fun _ => r_long) olds (N.of_nat (S i)) (N.of_nat (S i + k))) (dropN 8 s)) as [[vs m] r2| | |];
+        try contradiction; try exact IH.
+      destruct IH as (-> & Hlen & Hfirst & Hvs & ->). cbn [run_flat].
+      assert (Hi' : (i < length b2)%nat) by lia.
+      rewrite (firstn_S_nth b' i) in Hfirst by lia.
+      rewrite (firstn_S_nth (upd_nth b2 i v) i) in Hfirst by (rewrite upd_nth_length; lia).
+      apply app_inj_tail in Hfirst. destruct Hfirst as [E1 E2]. rewrite upd_nth_nth in E2 by exact Hi'.
+      rewrite upd_nth_firstn in E1.
+      repeat split; auto.
+      - rewrite (skipn_nth_cons' b' i) by lia. cbn [map]. rewrite E2, Hvs. reflexivity.
+      - lia. }
+    rewrite LS. rewrite zlen_nat. destruct (Z.eqb_spec (Z.of_nat i) (Z.of_nat (length b))) as [Eq|Ne].
+    + (* every allocated word has been read: grow *)
+      assert (Eb : length b = i) by lia. destruct (Hz Eb) as [?|Ipos]; [lia|].
+      cbv zeta.
+      rewrite (wrap_s_id 64 Len) by (change (2 ^ (64 - 1)) with 9223372036854775808; lia).
+      rewrite (wrap_s_id 64 (Len - Z.of_nat i)) by (change (2 ^ (64 - 1)) with 9223372036854775808; lia).
+      set (more := Z.min (Len - Z.of_nat i) (Z.of_nat i)).
+      assert (Hm : 1 <= more <= Z.of_nat (S k)) by (unfold more; lia).
+      destruct (Z.ltb_spec more 0) as [?|_]; [lia|].
+      assert (Lb2 : length (b ++ zrepeat more) = (i + Z.to_nat more)%nat).
+      { rewrite app_length. unfold zrepeat. rewrite repeat_length. lia. }
+      pose proof (Step (b ++ zrepeat more) (zdrop more sp) ltac:(lia)) as R.
+      unfold bit_rel in *.
+      destruct (run_flat (bind packet_Long_ReadFrom_io _) s) as [[[b' sp'] n'] r1| | |];
+      destruct (run_flat (r_elems (S fuel) _ olds _ _) s) as [[vs m] r2| | |]; try contradiction; try exact R.
+      destruct R as (R1 & R2 & R3 & R4 & R5). repeat split; auto.
+      rewrite R3. rewrite firstn_app. rewrite Eb, Nat.sub_diag. cbn [firstn]. rewrite app_nil_r. reflexivity.
+    + apply (Step b sp). lia.
 Qed.
 End BitLoop.
 
@@ -422,30 +462,40 @@ Lemma zrepeat_length n : length (zrepeat n) = Z.to_nat n.
 Proof. unfold zrepeat. apply repeat_length. Qed.
 
 (* the loop result injected, against the model's continuation *)
-Lemma bitset_finish (L : nat -> Z -> list Z -> Z -> dec (list Z * Z)) 
-  (L0 : forall i b n, L 0%nat i b n = Ret (b, n))
-  (LS : forall k i b n, L (S k) i b n =
-     bind packet_Long_ReadFrom_io (fun p => let '(v, n2) := p in L k (wrap_s 64 (i + 1)) (zupd b i v) (wrap_s 64 (n + n2))))
-  fuel l n (b0 sp : list Z) rest : all_bytes rest -> 0 <= l < 2 ^ 31 -> (n <= 5)%N -> (Z.to_nat l <= fuel)%nat ->
-  length b0 = Z.to_nat l ->
-  fmapr inj_bitset (run_flat (bind (L (Z.to_nat l) 0 b0 (Z.of_N n)) (fun p => let '(b', n') := p in io_ret 0%N ((b', sp), n'))) rest)
+Lemma bitset_finish (L : nat -> Z -> list Z -> list Z -> Z -> dec (list Z * list Z * Z)) l
+  (L0 : forall i b sp n, L 0%nat i b sp n = Ret (b, sp, n))
+  (LS : forall k i b sp n, L (S k) i b sp n =
+    if (i =? zlen b)
+    then (let more := Z.min (wrap_s 64 (wrap_s 64 l - i)) i in
+          if (more <? 0) then Crash crash_make else
+          bind packet_Long_ReadFrom_io (fun p => let '(v, n2) := p in
+            L k (wrap_s 64 (i + 1)) (zupd (b ++ zrepeat more) i v) (zdrop more sp) (wrap_s 64 (n + n2))))
+    else bind packet_Long_ReadFrom_io (fun p => let '(v, n2) := p in
+            L k (wrap_s 64 (i + 1)) (zupd b i v) sp (wrap_s 64 (n + n2))))
+  fuel n (b0 sp : list Z) rest : all_bytes rest -> 0 <= l < 2 ^ 31 -> (n <= 5)%N -> (Z.to_nat l <= fuel)%nat ->
+  (length b0 <= Z.to_nat l)%nat -> (length b0 = 0%nat -> l = 0) ->
+  fmapr inj_bitset (run_flat (bind (L (Z.to_nat l) 0 b0 sp (Z.of_N n)) (fun p => let '(b', sp', n') := p in io_ret 0%N ((b', sp'), n'))) rest)
   = run_flat (bind (r_elems fuel (fun _ => r_long) (fun _ => VUnit) 0 (Z.to_N l))
                    (fun x => let '(vs, n2) := x in Ret (VList vs [], (n + n2)%N))) rest.
 Proof.
-  intros Hr Hl Hn Hf Hb. change (2 ^ 31) with 2147483648 in Hl.
-  assert (RL : forall k i b m, robust (L k i b m)).
-  { induction k as [|k IH]; intros i b m; [rewrite L0; constructor|]. rewrite LS.
-    apply robust_bind; [apply robust_Long_io|]. intros [v n2]. apply IH. }
+  intros Hr Hl Hn Hf Hb Hb0. change (2 ^ 31) with 2147483648 in Hl.
+  assert (RL : forall k i b sp' m, robust (L k i b sp' m)).
+  { induction k as [|k IH]; intros i b sp' m; [rewrite L0; constructor|]. rewrite LS.
+    destruct (i =? zlen b).
+    - cbv zeta. destruct (_ <? 0); [constructor|]. apply robust_bind; [apply robust_Long_io|]. intros [v n2]. apply IH.
+    - apply robust_bind; [apply robust_Long_io|]. intros [v n2]. apply IH. }
   rewrite run_flat_bind by apply RL.
   rewrite run_flat_bind by (apply r_elems_robust; intros; apply r_fixed_robust).
-  pose proof (bitloop_tie L L0 LS (fun _ => VUnit) (Z.to_nat l) 0 b0 (Z.of_N n) rest fuel Hr) as T.
+  pose proof (bitloop_tie l L L0 LS (fun _ => VUnit) (Z.to_nat l) 0 b0 sp (Z.of_N n) rest fuel Hr) as T.
   cbn [Nat.add] in T. change (Z.of_nat 0) with 0 in T. change (N.of_nat 0) with 0%N in T.
   replace (N.of_nat (Z.to_nat l)) with (Z.to_N l) in T by lia.
-  specialize (T Hb Hf ltac:(lia) ltac:(change (2 ^ 62) with 4611686018427387904; lia) ltac:(change (2 ^ 62) with 4611686018427387904; lia)).
-  destruct (run_flat (L (Z.to_nat l) 0 b0 (Z.of_N n)) rest) as [[b' n'] r1| | |];
+  specialize (T ltac:(lia) ltac:(lia) ltac:(intros E0; left; specialize (Hb0 E0); lia) Hf ltac:(lia)
+                ltac:(change (2 ^ 62) with 4611686018427387904; lia) ltac:(change (2 ^ 62) with 4611686018427387904; lia)).
+  unfold bit_rel in T.
+  destruct (run_flat (L (Z.to_nat l) 0 b0 sp (Z.of_N n)) rest) as [[[b' sp'] n'] r1| | |];
   destruct (run_flat (r_elems fuel (fun _ => r_long) (fun _ => VUnit) 0 (Z.to_N l)) rest) as [[vs m] r2| | |];
     try contradiction; [|cbn [fmapr]; congruence].
-  destruct T as (-> & _ & _ & _ & Hvs & ->). unfold io_ret. cbn [N.eqb run_flat fmapr]. unfold inj_bitset. cbn [fst snd skipn] in *.
+  destruct T as (-> & _ & _ & Hvs & ->). unfold io_ret. cbn [N.eqb run_flat fmapr]. unfold inj_bitset. cbn [fst snd skipn] in *.
   rewrite Hvs. do 2 f_equal. lia.
 Qed.
 
@@ -462,11 +512,11 @@ Proof.
   rewrite (wrap_s_id 64 l) by (change (2 ^ (64 - 1)) with 9223372036854775808; lia).
   rewrite Z.sub_0_r.
   destruct (Z.ltb_spec (zlen b + zlen sp) l) as [Small|Big].
-  - destruct (Z.ltb_spec l 0) as [?|_]; [lia|].
-    apply (bitset_finish packet_BitSet_ReadFrom_io_loop1 (fun _ _ _ => eq_refl) (fun _ _ _ _ => eq_refl) fuel l n (zrepeat l) []);
-      auto; [change (2 ^ 31) with 2147483648; lia|apply zrepeat_length].
+  - destruct (Z.ltb_spec (Z.min l 8192) 0) as [?|_]; [lia|].
+    apply (bitset_finish (packet_BitSet_ReadFrom_io_loop1 l) l (fun _ _ _ _ => eq_refl) (fun _ _ _ _ _ => eq_refl) fuel n (zrepeat (Z.min l 8192)) []);
+      auto; [change (2 ^ 31) with 2147483648; lia|rewrite zrepeat_length; lia|rewrite zrepeat_length; lia].
   - rewrite zlen_app. destruct (Z.ltb_spec l 0) as [?|_]; [lia|]. destruct (Z.ltb_spec (zlen b + zlen sp) l) as [?|_]; [lia|].
     cbn [orb].
-    apply (bitset_finish packet_BitSet_ReadFrom_io_loop2 (fun _ _ _ => eq_refl) (fun _ _ _ _ => eq_refl) fuel l n);
-      auto; [change (2 ^ 31) with 2147483648; lia|apply ztake_length; rewrite zlen_app; lia].
+    apply (bitset_finish (packet_BitSet_ReadFrom_io_loop2 l) l (fun _ _ _ _ => eq_refl) (fun _ _ _ _ _ => eq_refl) fuel n);
+      auto; [change (2 ^ 31) with 2147483648; lia|rewrite ztake_length by (rewrite zlen_app; lia); lia|rewrite ztake_length by (rewrite zlen_app; lia); lia].
 Qed.
